@@ -324,6 +324,8 @@ def special_stream():
         "pd.Series(['//cdn.example.com/lib.js', '//fileserver/share/q1.csv'])", "pd.Series(['//host/share'])",
         "pd.Series(['82.016097535139332871', '3.25e-30'])", "pd.Series(['0.1234567890123456789', '1.0', '2.2250738585072014e-308'])", "pd.Series(['1e23', '8.5e-5', '123456789012345678901234567890'])",
         "pd.Series(['\\ud83d', 'POINT (1 2)'], dtype=pd.StringDtype('python'))", "pd.Series(['\\ud83d'], dtype=pd.StringDtype('python'))", "pd.Series(['\\ud83d', 'a'], dtype=object)",
+        "pd.Series([None] * 40 + ['8.8.8.8', '8.8.8.8'])", "pd.Series([nan] * 64 + ['a', 'b'])", "pd.Series([None] * 33 + ['http://a.b/c'])", "pd.Series([None] * 50 + ['2020-01-01', '2021-06-15'])",
+        "pd.Series([None] * 35 + [uuid.UUID('0b8a22ca-80ad-4df5-85ac-fa49c44b7ede')])", "pd.Series([nan] * 48 + [1.5, 2.0])", "pd.Series([None] * 36 + [True, False], dtype=object)",
         "pd.Series(['0000-01-01'])", "pd.Series(['-2020-01-01', '2020-01-01'])", "pd.Series([1.0, False, None], dtype=object)", "pd.Series([True, 0, None], dtype=object)",
         "pd.Series([np.bool_(True), np.float32(0), None], dtype=object)", "pd.Series(pd.arrays.SparseArray([pd.Timestamp('2020-01-01'), pd.NaT]))",
         "pd.Series([datetime.date(2020, 1, 1), None], dtype='date32[pyarrow]')", "pd.Series([pd.Timestamp('2020-01-01'), None], dtype='timestamp[us][pyarrow]')",
